@@ -218,8 +218,11 @@ def programs(draw) -> t.Any:
             if params and draw(st.integers(0, 4)) > 0:
                 args = []
                 for _ in params:
+                    tv = st.sampled_from(['T', 'U']).map(lambda n: ('v', n))
                     args.append(draw(st.one_of(leaf_c, st.sampled_from(['T', 'U', 'V']).map(lambda n: ('v', n)),
-                                               st.tuples(st.just('list'), st.sampled_from(['T', 'U']).map(lambda n: ('v', n))))))
+                                               st.tuples(st.just('list'), tv),
+                                               # a subscripted pane dataclass as the argument (a real class, not a typing alias)
+                                               st.tuples(st.just('gen'), tv), st.tuples(st.just('list'), st.tuples(st.just('gen'), tv)))))
                 lv['base_args'] = args
                 free: t.List[str] = []
                 for a in args:
